@@ -39,7 +39,7 @@ fn create_alias_command(
             all_arguments.append(&mut self.arguments.clone());
             all_arguments.append(&mut context.arguments.clone());
 
-            eval::eval_with_error(
+            eval::eval_values_with_error(
                 &all_arguments,
                 context.state,
                 context.variables,
